@@ -38,3 +38,8 @@ check("C02",
       "Exploration: generated histories of submit / abandon / answer (any order) / unsolicited / break drive the connection's real ResponseHandlerMap; after every step the model decides which handler (or orphan marker, or nothing) a stream may resolve to and that no stream is handed out while its previous request is unanswered by the server.",
       "Trusted: the reference model. Covers all orders of the reader/writer/orphaner effects on the map; real interleavings inside the router task and byte-level routing of frames are sampled by the end-to-end mock-cluster sub-check (when present in evidence sub_checks).",
       "DESIGN.md 2/C02")
+check("C06",
+      "property-based testing: generated outcome histories fed to the built-in retry sessions, safety predicates from the property; exhaustive single decisions and triples over a representative lattice",
+      "Exploration: every generated history of per-attempt failures x idempotence x initial consistency x built-in policy is fed to one retry session as the execution loop does; for non-idempotent requests a retry may follow only a failure that proves non-application, default never retries at serial consistency, fallthrough never retries, same-target retries are bounded per session.",
+      "Trusted: the property's list of failures that prove non-application. The 'driver sends exactly the attempts decided' half is the mock-cluster sub-check (when present in evidence sub_checks).",
+      "DESIGN.md 2/C06")
